@@ -389,6 +389,8 @@ def nesting_status(F, R):
 
 
 def run(F, res, tier):
+    from rules import c14 as _c14u
+    _c14u.text_positions_are_counted_in_bytes(F, res, rule="P8", crates=('syntax',))   # engine U: slicing or bumping by a character / UTF-16 count lands inside a character and panics
     R = pcache.results(F)
     res.analysed.update({"functions": len(R["functions"]), "contexts": R["contexts"], "context_analyses": R["analyses"],
                          "abstract_states": R["states"], "token_kinds": len(R["universe"]),
